@@ -150,6 +150,12 @@ def parse_kani(out: str) -> dict:
             failures.append({"check": name, "status": status, "description": desc, "location": loc})
     for f in failures:
         f["description"] = f["description"].strip('"')
+    # CBMC's C library models (fma & co.) call `feraiseexcept`, whose built-in body asserts
+    # "floating-point exception" when e.g. fma(inf, 0, x) raises FE_INVALID. Rust floating-point
+    # arithmetic never traps, so this check has no Rust-level meaning: it is dropped (and reported).
+    artefacts = [f for f in failures if f["check"].startswith("feraiseexcept.") and "floating-point exception" in f["description"]]
+    failures = [f for f in failures if f not in artefacts]
+    res["ignored_cbmc_artefacts"] = len(artefacts)
     res["failures"] = failures
     res["covers"] = covers
     m = re.search(r"Failed Checks: (.*)", out)
@@ -188,7 +194,10 @@ def run_harness(ctx: Ctx, h: dict, logdir: str) -> dict:
         r["verdict"] = "timeout"
     elif r["compile_error"]:
         r["verdict"] = "compile_error"
-    elif r["successful"] and not r["failed"]:
+    elif (r["successful"] and not r["failed"]) or (r["failed"] and not r["failures"] and r["ignored_cbmc_artefacts"]
+                                                  and r["checks_failed"] == r["ignored_cbmc_artefacts"] and not r["cbmc_error"]):
+        if r["failed"]:
+            r["detail"] = f"(ignored {r['ignored_cbmc_artefacts']} CBMC feraiseexcept artefact(s))"
         if missing:
             r["verdict"] = "missing_stub"
             r["detail"] = f"stubs not applied: {missing}"
